@@ -47,8 +47,8 @@ ASSUMPTIONS = [
     "CSV files carry a byte-order mark for UTF-16/32 (without one the file is not self-describing: the API has no "
     "encoding parameter); rows use valid OHLC shapes",
     "a row's date / time is a wall-clock reading in the source's tzinfo (fixed offsets -3 h, +5:30 h, UTC); events are "
-    "compared as instants, whatever tzinfo they carry; period strings as documented, '1M' left out (the statement does not "
-    "say how long a month is)",
+    "compared as instants, whatever tzinfo they carry; period strings as documented; for Binance's '1M' (the statement does not say how long a month is) "
+    "only 28 days <= stamp - start <= 31 days is demanded",
     "trade timestamps at 9 offsets of a window incl. the last millisecond's tail; pushes are made well before and "
     "'flush' advances to well after window end + flush delay (the exact flush instant is not part of the property); "
     "a bar event must not become available earlier than 1 ms before the end of its window (the stamp tolerance)",
@@ -113,8 +113,8 @@ def row_alphabet():
     return [(ts,) + ohlc + (v,) for ts in TS for ohlc in OHLC for v in VOLS]
 
 
-# period strings of the two documented tables (written out here, independent of the implementation's tables); "1M" is left
-# out: the statement does not say how long a month is
+# period strings of the two documented tables (written out here, independent of the implementation's tables); "1M" has no
+# entry: the statement does not say how long a month is, only a 28..31 day range is demanded (csv_case)
 PERIOD_SECONDS = {"1s": 1, "1m": 60, "3m": 180, "5m": 300, "15m": 900, "30m": 1800, "1h": 3600, "2h": 7200, "4h": 14400,
                   "6h": 21600, "8h": 28800, "12h": 43200, "1d": 86400, "3d": 259200, "1w": 604800,
                   "min": 60, "hour": 3600, "day": 86400, "MINUTE": 60, "HOUR": 3600, "DAY": 86400}
@@ -143,7 +143,9 @@ def make_source(spec, path, sort):
     # the default time zone of the Binance / Bitstamp sources is UTC: "utc" leaves the argument out
     kw = {} if tzname == "utc" else {"tzinfo": TZS[tzname]}
     if fam == "binance":
-        return bcsv.BarSource(P, path, per, sort=sort, **kw), datetime.timedelta(seconds=PERIOD_SECONDS[per])
+        # "1M": no exact expectation (period None), see csv_case
+        return (bcsv.BarSource(P, path, per, sort=sort, **kw),
+                None if per == "1M" else datetime.timedelta(seconds=PERIOD_SECONDS[per]))
     if fam == "bitstamp":
         return scsv.BarSource(P, path, per, sort=sort, **kw), datetime.timedelta(seconds=PERIOD_SECONDS[per])
     if fam == "bitstamp-enum":
@@ -203,10 +205,19 @@ def csv_case(kind, encname, sort, rows, tmpdir, tzname="utc"):
         if fam == "yahoo-adjust":
             f = (D(c) / 2) / D(c)
             vals = [D(o) * f, D(h) * f, D(lo) * f, D(c) / 2]
-        return (when, when + period) + tuple(vals) + (D(v),)
+        return (when, when + (period or datetime.timedelta(0))) + tuple(vals) + (D(v),)
     want = [want_row(r) for r in rows if yahoo or D(r[5]) != 0]
     got = [(utc_instant(e.bar.datetime), utc_instant(e.when), e.bar.open, e.bar.high, e.bar.low, e.bar.close, e.bar.volume)
            for e in evs]
+    if period is None:
+        # a monthly bar ("1M"): the statement does not say how long a month is; under any reading the event is stamped at
+        # least 28 and at most 31 days after the bar's start. Checked here, then the stamp is taken out of the comparison.
+        for g in got:
+            if g[0].tzinfo is not None and g[1].tzinfo is not None and \
+                    not datetime.timedelta(days=28) <= g[1] - g[0] <= datetime.timedelta(days=31):
+                bad.append(("csv-month-period", f"monthly bar starting {g[0]} stamped {g[1]} ({g[1] - g[0]} later; a month is 28..31 days)"))
+                break
+        got = [(g[0], g[0]) + g[2:] for g in got]
     for g in got:
         if not (g[4] <= g[2] <= g[3] and g[4] <= g[5] <= g[3]):
             bad.append(("bar-invariant", f"bar {g[2:6]} violates low <= open, close <= high"))
@@ -277,7 +288,7 @@ def run_csv_extra(sc, tier, res):
                             cases.append((kind, tzname, encname, sort, rows))
         elif sc[0] == "csv-periods":
             _, fam = sc
-            periods = {"binance": BINANCE_PERIODS, "bitstamp": BITSTAMP_PERIODS, "bitstamp-enum": BITSTAMP_ENUM_PERIODS,
+            periods = {"binance": BINANCE_PERIODS + ("1M",), "bitstamp": BITSTAMP_PERIODS, "bitstamp-enum": BITSTAMP_ENUM_PERIODS,
                        "yahoo": YAHOO_TIMEDELTAS, "yahoo-adjust": YAHOO_TIMEDELTAS}[fam]
             tiny = [r for r in small if r[1:5] == OHLC[0]]
             for n, per in enumerate(periods):
